@@ -2,11 +2,24 @@
 
 package metrics //nolint:revive
 
+// C36 driver: the real onMetrics handler in front of stub servers for EVERY entity kind (paths, forward destinations, HLS
+// sessions and muxers, RTSP/RTSPS conns and sessions, RTMP/RTMPS conns, SRT conns, WebRTC sessions, MoQ sessions) with
+// generated entities (client-style strings in every string field, counters, floats) and generated queries (type= and the
+// thirteen filters). Shipped per case: what the stubs returned (every scalar field of every entity, by reflection), the
+// query, the body, and the samples the property calls for, computed here WITHOUT looking at metrics.go:
+//   every uint64 / float64 field F of an entity is exported as <kind>_<snake_case(F)>, <kind> counts the entity (1),
+//   paths_readers counts the readers per type; labels per kind from the table below; a kind is selected by type= and
+//   by its own filter; an entity passes if the filter equals its key.
+
 import (
 	"fmt"
+	"math"
 	"net/http"
 	"net/http/httptest"
+	"net/url"
+	"reflect"
 	"sort"
+	"strconv"
 	"strings"
 	"testing"
 
@@ -16,46 +29,554 @@ import (
 	"github.com/bluenviron/mediamtx/internal/defs"
 )
 
-type vC36PM struct{ list *defs.APIPathList }
+// ---- stubs ----
 
-func (p *vC36PM) APIPathsList() (*defs.APIPathList, error) { return p.list, nil }
-func (p *vC36PM) APIPathsGet(string) (*defs.APIPath, error) {
-	return nil, fmt.Errorf("not implemented")
+var errVC36 = fmt.Errorf("stub error")
+
+type vC36PM struct {
+	list     *defs.APIPathList
+	listErr  bool
+	forwards map[string]*defs.APIForwardDestList // missing = error
 }
 
-func (p *vC36PM) APIForwardDestList(string) (*defs.APIForwardDestList, error) {
-	return &defs.APIForwardDestList{}, nil
-}
-
-func (p *vC36PM) APIForwardDestGet(string, uuid.UUID) (*defs.APIForwardDest, error) {
-	return nil, fmt.Errorf("not implemented")
-}
-
-type vC36WR struct{ list *defs.APIWebRTCSessionList }
-
-func (s *vC36WR) APISessionsList() (*defs.APIWebRTCSessionList, error) { return s.list, nil }
-func (s *vC36WR) APISessionsGet(uuid.UUID) (*defs.APIWebRTCSession, error) {
-	return nil, fmt.Errorf("not implemented")
-}
-func (s *vC36WR) APISessionsKick(uuid.UUID) error { return nil }
-
-type vC36Exp struct {
-	name   string
-	labels [][2]string
-	value  int64
-}
-
-func vC36Labels(m map[string]string) [][2]string {
-	keys := make([]string, 0, len(m))
-	for k := range m {
-		keys = append(keys, k)
+func (p *vC36PM) APIPathsList() (*defs.APIPathList, error) {
+	if p.listErr {
+		return nil, errVC36
 	}
-	sort.Strings(keys)
-	out := make([][2]string, len(keys))
-	for i, k := range keys {
-		out[i] = [2]string{k, m[k]}
+	return p.list, nil
+}
+func (p *vC36PM) APIPathsGet(string) (*defs.APIPath, error) { return nil, errVC36 }
+func (p *vC36PM) APIForwardDestList(name string) (*defs.APIForwardDestList, error) {
+	if l, ok := p.forwards[name]; ok && l != nil {
+		return l, nil
+	}
+	return nil, errVC36
+}
+func (p *vC36PM) APIForwardDestGet(string, uuid.UUID) (*defs.APIForwardDest, error) {
+	return nil, errVC36
+}
+
+type vC36HLS struct {
+	sessions   *defs.APIHLSSessionList
+	muxers     *defs.APIHLSMuxerList
+	sErr, mErr bool
+}
+
+func (s *vC36HLS) APISessionsList() (*defs.APIHLSSessionList, error) {
+	if s.sErr {
+		return nil, errVC36
+	}
+	return s.sessions, nil
+}
+func (s *vC36HLS) APISessionsGet(uuid.UUID) (*defs.APIHLSSession, error) { return nil, errVC36 }
+func (s *vC36HLS) APISessionsKick(uuid.UUID) error                       { return nil }
+func (s *vC36HLS) APIMuxersList() (*defs.APIHLSMuxerList, error) {
+	if s.mErr {
+		return nil, errVC36
+	}
+	return s.muxers, nil
+}
+func (s *vC36HLS) APIMuxersGet(string) (*defs.APIHLSMuxer, error) { return nil, errVC36 }
+
+type vC36RTSP struct {
+	conns      *defs.APIRTSPConnsList
+	sessions   *defs.APIRTSPSessionList
+	cErr, sErr bool
+}
+
+func (s *vC36RTSP) APIConnsList() (*defs.APIRTSPConnsList, error) {
+	if s.cErr {
+		return nil, errVC36
+	}
+	return s.conns, nil
+}
+func (s *vC36RTSP) APIConnsGet(uuid.UUID) (*defs.APIRTSPConn, error) { return nil, errVC36 }
+func (s *vC36RTSP) APISessionsList() (*defs.APIRTSPSessionList, error) {
+	if s.sErr {
+		return nil, errVC36
+	}
+	return s.sessions, nil
+}
+func (s *vC36RTSP) APISessionsGet(uuid.UUID) (*defs.APIRTSPSession, error) { return nil, errVC36 }
+func (s *vC36RTSP) APISessionsKick(uuid.UUID) error                        { return nil }
+
+type vC36RTMP struct {
+	conns *defs.APIRTMPConnList
+	err   bool
+}
+
+func (s *vC36RTMP) APIConnsList() (*defs.APIRTMPConnList, error) {
+	if s.err {
+		return nil, errVC36
+	}
+	return s.conns, nil
+}
+func (s *vC36RTMP) APIConnsGet(uuid.UUID) (*defs.APIRTMPConn, error) { return nil, errVC36 }
+func (s *vC36RTMP) APIConnsKick(uuid.UUID) error                     { return nil }
+
+type vC36SRT struct {
+	conns *defs.APISRTConnList
+	err   bool
+}
+
+func (s *vC36SRT) APIConnsList() (*defs.APISRTConnList, error) {
+	if s.err {
+		return nil, errVC36
+	}
+	return s.conns, nil
+}
+func (s *vC36SRT) APIConnsGet(uuid.UUID) (*defs.APISRTConn, error) { return nil, errVC36 }
+func (s *vC36SRT) APIConnsKick(uuid.UUID) error                    { return nil }
+
+type vC36WR struct {
+	list *defs.APIWebRTCSessionList
+	err  bool
+}
+
+func (s *vC36WR) APISessionsList() (*defs.APIWebRTCSessionList, error) {
+	if s.err {
+		return nil, errVC36
+	}
+	return s.list, nil
+}
+func (s *vC36WR) APISessionsGet(uuid.UUID) (*defs.APIWebRTCSession, error) { return nil, errVC36 }
+func (s *vC36WR) APISessionsKick(uuid.UUID) error                          { return nil }
+
+type vC36MoQ struct {
+	list *defs.APIMoQSessionList
+	err  bool
+}
+
+func (s *vC36MoQ) APISessionsList() (*defs.APIMoQSessionList, error) {
+	if s.err {
+		return nil, errVC36
+	}
+	return s.list, nil
+}
+func (s *vC36MoQ) APISessionsGet(uuid.UUID) (*defs.APIMoQSession, error) { return nil, errVC36 }
+func (s *vC36MoQ) APISessionsKick(uuid.UUID) error                       { return nil }
+
+// ---- canonical entities (reflection over the defs structs) ----
+
+type vC36NV struct {
+	Name string
+	V    uint64
+	Bool bool
+}
+
+type vC36Ent struct {
+	Str     [][2]string // string fields, uuid.UUID as String()
+	Num     []vC36NV    // uint64 fields, bool as 0/1
+	Flt     [][2]string // float64 fields: FormatFloat(v,'f',-1,64)
+	Readers []string
+	Owner   string // forward destinations: the path they were listed under
+}
+
+func (e *vC36Ent) str(f string) string {
+	for _, kv := range e.Str {
+		if kv[0] == f {
+			return kv[1]
+		}
+	}
+	panic("no string field " + f)
+}
+
+func (e *vC36Ent) num(f string) uint64 {
+	for _, kv := range e.Num {
+		if kv.Name == f {
+			return kv.V
+		}
+	}
+	panic("no numeric field " + f)
+}
+
+var vC36UUIDType = reflect.TypeOf(uuid.UUID{})
+
+func vC36Canon(v reflect.Value) vC36Ent {
+	var e vC36Ent
+	t := v.Type()
+	for i := 0; i < t.NumField(); i++ {
+		f, fv := t.Field(i), v.Field(i)
+		switch {
+		case f.Type == vC36UUIDType:
+			e.Str = append(e.Str, [2]string{f.Name, fv.Interface().(uuid.UUID).String()})
+		case f.Type.Kind() == reflect.String:
+			e.Str = append(e.Str, [2]string{f.Name, fv.String()})
+		case f.Type.Kind() == reflect.Uint64:
+			e.Num = append(e.Num, vC36NV{Name: f.Name, V: fv.Uint()})
+		case f.Type.Kind() == reflect.Bool:
+			b := uint64(0)
+			if fv.Bool() {
+				b = 1
+			}
+			e.Num = append(e.Num, vC36NV{Name: f.Name, V: b, Bool: true})
+		case f.Type.Kind() == reflect.Float64:
+			e.Flt = append(e.Flt, [2]string{f.Name, strconv.FormatFloat(fv.Float(), 'f', -1, 64)})
+		case f.Name == "Readers":
+			for _, rd := range fv.Interface().([]defs.APIPathReader) {
+				e.Readers = append(e.Readers, string(rd.Type))
+			}
+		}
+	}
+	return e
+}
+
+// FooBarRTPBaz -> foo_bar_rtp_baz
+func vC36Snake(s string) string {
+	var b strings.Builder
+	for i := 0; i < len(s); i++ {
+		c := s[i]
+		up := c >= 'A' && c <= 'Z'
+		if up && i > 0 {
+			prevLow := s[i-1] >= 'a' && s[i-1] <= 'z'
+			nextLow := i+1 < len(s) && s[i+1] >= 'a' && s[i+1] <= 'z'
+			if prevLow || nextLow {
+				b.WriteByte('_')
+			}
+		}
+		if up {
+			c += 'a' - 'A'
+		}
+		b.WriteByte(c)
+	}
+	return b.String()
+}
+
+// the one field whose metric name is not the snake-cased field name
+var vC36NameExceptions = map[string]string{"srt_conns_byte_mss": "srt_conns_bytes_mss"}
+
+func vC36MetricName(kind, field string) string {
+	n := kind + "_" + vC36Snake(field)
+	if x, ok := vC36NameExceptions[n]; ok {
+		return x
+	}
+	return n
+}
+
+// ---- the property's table: per kind the struct, the own filter parameters with the key they select, the labels ----
+
+type vC36Kind struct {
+	typ      string
+	coq      string
+	proto    any         // zero value of the entity struct
+	filters  [][2]string // query parameter, key: a string field name or "#owner"
+	labels   [][2]string // label key, source: a string field name, "#ready" or "#owner"
+	zeroType bool        // zero lines only with type=<typ>
+}
+
+var vC36SessionLabels = [][2]string{{"id", "ID"}, {"path", "Path"}, {"remoteAddr", "RemoteAddr"}, {"state", "State"}}
+
+var vC36Kinds = []vC36Kind{
+	{"paths", "KPaths", defs.APIPath{}, [][2]string{{"path", "Name"}}, [][2]string{{"name", "Name"}, {"state", "#ready"}}, false},
+	{"forward_dests", "KForward", defs.APIForwardDest{}, [][2]string{{"path", "#owner"}, {"forward_dest", "ID"}},
+		[][2]string{{"id", "ID"}, {"path", "#owner"}, {"protocol", "Protocol"}, {"state", "State"}}, true},
+	{"hls_sessions", "KHlsSessions", defs.APIHLSSession{}, [][2]string{{"hls_session", "ID"}},
+		[][2]string{{"id", "ID"}, {"path", "Path"}, {"remoteAddr", "RemoteAddr"}}, false},
+	{"hls_muxers", "KHlsMuxers", defs.APIHLSMuxer{}, [][2]string{{"hls_muxer", "Path"}}, [][2]string{{"name", "Path"}}, false},
+	{"rtsp_conns", "KRtspConns", defs.APIRTSPConn{}, [][2]string{{"rtsp_conn", "ID"}}, [][2]string{{"id", "ID"}}, false},
+	{"rtsp_sessions", "KRtspSessions", defs.APIRTSPSession{}, [][2]string{{"rtsp_session", "ID"}}, vC36SessionLabels, false},
+	{"rtsps_conns", "KRtspsConns", defs.APIRTSPConn{}, [][2]string{{"rtsps_conn", "ID"}}, [][2]string{{"id", "ID"}}, false},
+	{"rtsps_sessions", "KRtspsSessions", defs.APIRTSPSession{}, [][2]string{{"rtsps_session", "ID"}}, vC36SessionLabels, false},
+	{"rtmp_conns", "KRtmpConns", defs.APIRTMPConn{}, [][2]string{{"rtmp_conn", "ID"}}, vC36SessionLabels, false},
+	{"rtmps_conns", "KRtmpsConns", defs.APIRTMPConn{}, [][2]string{{"rtmps_conn", "ID"}}, vC36SessionLabels, false},
+	{"srt_conns", "KSrtConns", defs.APISRTConn{}, [][2]string{{"srt_conn", "ID"}}, vC36SessionLabels, false},
+	{"webrtc_sessions", "KWebrtcSessions", defs.APIWebRTCSession{}, [][2]string{{"webrtc_session", "ID"}}, vC36SessionLabels, false},
+	{"moq_sessions", "KMoqSessions", defs.APIMoQSession{}, [][2]string{{"moq_session", "ID"}}, vC36SessionLabels, false},
+}
+
+// all metric names of a kind (from the struct type)
+func (k *vC36Kind) names() []string {
+	out := []string{k.typ}
+	t := reflect.TypeOf(k.proto)
+	for i := 0; i < t.NumField(); i++ {
+		if kd := t.Field(i).Type.Kind(); kd == reflect.Uint64 || kd == reflect.Float64 {
+			out = append(out, vC36MetricName(k.typ, t.Field(i).Name))
+		}
+	}
+	if k.typ == "paths" {
+		out = append(out, "paths_readers")
 	}
 	return out
+}
+
+func (k *vC36Kind) source(e *vC36Ent, src string) string {
+	switch src {
+	case "#owner":
+		return e.Owner
+	case "#ready":
+		if e.num("Ready") != 0 {
+			return "ready"
+		}
+		return "notReady"
+	}
+	return e.str(src)
+}
+
+type vC36Val struct {
+	Name string
+	Tok  string // float token; "" = integer
+	I    int64
+}
+
+type vC36X struct {
+	Tags   [][2]string
+	NoTags bool
+	Vals   []vC36Val
+}
+
+func vC36SortTags(t [][2]string) [][2]string {
+	out := append([][2]string(nil), t...)
+	sort.Slice(out, func(i, j int) bool { return out[i][0] < out[j][0] })
+	return out
+}
+
+// the samples one entity calls for
+func (k *vC36Kind) expect(e *vC36Ent) []vC36X {
+	var tags [][2]string
+	for _, l := range k.labels {
+		tags = append(tags, [2]string{l[0], k.source(e, l[1])})
+	}
+	x := vC36X{Tags: vC36SortTags(tags)}
+	x.Vals = append(x.Vals, vC36Val{Name: k.typ, I: 1})
+	for _, nv := range e.Num {
+		if nv.Bool {
+			continue
+		}
+		x.Vals = append(x.Vals, vC36Val{Name: vC36MetricName(k.typ, nv.Name), I: int64(nv.V)})
+	}
+	for _, fv := range e.Flt {
+		x.Vals = append(x.Vals, vC36Val{Name: vC36MetricName(k.typ, fv[0]), Tok: fv[1]})
+	}
+	out := []vC36X{x}
+	if k.typ == "paths" {
+		by := map[string]int64{}
+		for _, rt := range e.Readers {
+			by[rt]++
+		}
+		if len(by) == 0 {
+			by[""] = 0
+		}
+		for rt, c := range by {
+			out = append(out, vC36X{Tags: vC36SortTags(append(append([][2]string(nil), tags...), [2]string{"readerType", rt})),
+				Vals: []vC36Val{{Name: "paths_readers", I: c}}})
+		}
+	}
+	return out
+}
+
+func (k *vC36Kind) passes(e *vC36Ent, q map[string]string) bool {
+	for _, f := range k.filters {
+		if v := q[f[0]]; v != "" && v != k.source(e, f[1]) {
+			return false
+		}
+	}
+	return true
+}
+
+// ---- compact Gallina printers ----
+
+// a byte string packed 7 bytes per primitive 63-bit integer literal (Check/C36.v: B)
+func vC36B(s string) string {
+	if len(s) == 0 {
+		return "[]"
+	}
+	var sb strings.Builder
+	sb.WriteString("(B ")
+	sb.WriteString(strconv.Itoa(len(s)))
+	sb.WriteString(" [")
+	for i := 0; i < len(s); i += 7 {
+		var w uint64
+		for k := 0; k < 7; k++ {
+			w <<= 8
+			if i+k < len(s) {
+				w |= uint64(s[i+k])
+			}
+		}
+		if i > 0 {
+			sb.WriteByte(';')
+		}
+		sb.WriteString(strconv.FormatUint(w, 10))
+	}
+	sb.WriteString("]%uint63)")
+	return sb.String()
+}
+
+func vC36Pairs(p [][2]string) string {
+	return cqListOf(p, func(kv [2]string) string { return cqPair(vC36B(kv[0]), vC36B(kv[1])) })
+}
+
+func vC36EntCoq(e vC36Ent) string {
+	return cqApp("E", vC36Pairs(e.Str),
+		cqListOf(e.Num, func(nv vC36NV) string { return cqPair(vC36B(nv.Name), cqU(nv.V)) }),
+		vC36Pairs(e.Flt), cqListOf(e.Readers, vC36B))
+}
+
+func vC36EntsCoq(es []vC36Ent) string { return cqListOf(es, vC36EntCoq) }
+
+func vC36XCoq(x vC36X) string {
+	return cqApp("X", cqOpt(!x.NoTags, vC36Pairs(x.Tags)), cqListOf(x.Vals, func(v vC36Val) string {
+		if v.Tok != "" {
+			return cqPair(vC36B(v.Name), cqApp("VT", vC36B(v.Tok)))
+		}
+		return cqPair(vC36B(v.Name), cqApp("VI", cqZ(v.I)))
+	}))
+}
+
+// ---- generators ----
+
+type vC36Gen struct {
+	r       *vRand
+	hostile int
+}
+
+var vC36Hostile = []string{`a"} 1` + "\nx{y=\"", `back\slash`, `quote"quote`, "new\nline", `\n`, `\"`, `"`, `\`, "\n", `}`, `{`, `a,b="c"`,
+	"tab\there", "nul\x00byte", "\xff\xfe", "ünïcode", ` leading and trailing `, `#comment`, `a=b`, `\\"\\n`, strings.Repeat(`"\`, 20),
+	"a&b=c", "x?type=paths", "100%", "a+b c", ""}
+
+func (g *vC36Gen) str() string {
+	r := g.r
+	var s string
+	switch r.Intn(5) {
+	case 0:
+		s = vPick(r, vC36Hostile)
+	case 1:
+		b := make([]byte, r.Intn(12))
+		for i := range b {
+			b[i] = "abc/_-.~\"\\\n{}=, #"[r.Intn(17)]
+		}
+		s = string(b)
+	case 2:
+		b := make([]byte, r.Intn(8))
+		for i := range b {
+			b[i] = byte(r.U64())
+		}
+		s = string(b)
+	case 3:
+		s = fmt.Sprintf("192.168.%d.%d:%d", r.Intn(256), r.Intn(256), r.Intn(65536))
+	default:
+		s = fmt.Sprintf("cam%d/stream", r.Intn(6))
+	}
+	if strings.ContainsAny(s, "\"\\\n") {
+		g.hostile++
+	}
+	return s
+}
+
+func (g *vC36Gen) counter() uint64 {
+	r := g.r
+	switch r.Intn(4) {
+	case 0:
+		return 0
+	case 1:
+		return uint64(1)<<63 - 1 - uint64(r.Intn(3))
+	case 2:
+		return r.U64() >> 1
+	default:
+		return uint64(r.Intn(100000))
+	}
+}
+
+func (g *vC36Gen) float() float64 {
+	r := g.r
+	switch r.Intn(10) {
+	case 0:
+		return 0
+	case 1:
+		return float64(r.Intn(1000))
+	case 2:
+		return float64(r.Intn(100000)) / 7
+	case 3:
+		return -float64(r.Intn(1000)) / 3
+	case 4:
+		return vPick(r, []float64{1e21, 1e-7, 5e-324, math.MaxFloat64, math.Inf(1), math.Inf(-1), math.NaN(), math.Copysign(0, -1), 0.1, 1e20})
+	case 5:
+		return math.Float64frombits(r.U64())
+	default:
+		return float64(r.Intn(1_000_000)) / 1000
+	}
+}
+
+var vC36States = []string{"idle", "read", "publish", "forwarding", "error"}
+var vC36Protocols = []string{"rtmp", "rtmps", "rtsp", "rtsps", "srt", "whip", "whips"}
+var vC36ReaderTypes = []defs.APIPathReaderType{defs.APIPathReaderTypeHLSSession, defs.APIPathReaderTypeRTMPConn,
+	defs.APIPathReaderTypeRTMPSConn, defs.APIPathReaderTypeRTSPSession, defs.APIPathReaderTypeWebRTCSession, defs.APIPathReaderTypeHidden,
+	"", "odd\"type"}
+
+// fill every scalar field of *p (a defs entity struct)
+func (g *vC36Gen) fill(p any) {
+	v := reflect.ValueOf(p).Elem()
+	t := v.Type()
+	for i := 0; i < t.NumField(); i++ {
+		f, fv := t.Field(i), v.Field(i)
+		switch {
+		case f.Type == vC36UUIDType:
+			var id uuid.UUID
+			for b := range id {
+				id[b] = byte(g.r.U64())
+			}
+			fv.Set(reflect.ValueOf(id))
+		case f.Type.Kind() == reflect.String:
+			switch f.Name {
+			case "State":
+				if g.r.Chance(1, 8) {
+					fv.SetString(g.str())
+				} else {
+					fv.SetString(vPick(g.r, vC36States))
+				}
+			case "Protocol":
+				fv.SetString(vPick(g.r, vC36Protocols))
+			default:
+				fv.SetString(g.str())
+			}
+		case f.Type.Kind() == reflect.Uint64:
+			fv.SetUint(g.counter())
+		case f.Type.Kind() == reflect.Bool:
+			fv.SetBool(g.r.Bool())
+		case f.Type.Kind() == reflect.Float64:
+			fv.SetFloat(g.float())
+		case f.Name == "Readers":
+			var rs []defs.APIPathReader
+			for q := g.r.Intn(5); q > 0 && g.r.Chance(2, 3); q-- {
+				rs = append(rs, defs.APIPathReader{Type: vPick(g.r, vC36ReaderTypes), ID: "x"})
+			}
+			fv.Set(reflect.ValueOf(rs))
+		}
+	}
+}
+
+// number of entities of a list: 0 (25%), 1, 2, 3
+func (g *vC36Gen) count(max int) int {
+	if g.r.Chance(1, 4) {
+		return 0
+	}
+	return 1 + g.r.Intn(max)
+}
+
+func vC36Make[T any](g *vC36Gen, n int) ([]T, []vC36Ent) {
+	items := make([]T, n)
+	ents := make([]vC36Ent, n)
+	for i := range items {
+		g.fill(&items[i])
+		if i > 0 && g.r.Chance(1, 10) { // an exact duplicate (same id / name)
+			items[i] = items[i-1]
+		}
+		ents[i] = vC36Canon(reflect.ValueOf(items[i]))
+	}
+	return items, ents
+}
+
+// one listing of a server kind in the case: absent, failed, or listed
+type vC36Listing struct {
+	present bool
+	failed  bool
+	ents    []vC36Ent
+}
+
+func (l vC36Listing) coq() string {
+	if l.failed {
+		return "Failed"
+	}
+	return cqApp("Listed", vC36EntsCoq(l.ents))
 }
 
 func TestVerifC36(t *testing.T) {
@@ -65,129 +586,310 @@ func TestVerifC36(t *testing.T) {
 	defer out.Close()
 	n := vN()
 
-	hostile := []string{`a"} 1` + "\nx{y=\"", `back\slash`, `quote"quote`, "new\nline", `\n`, `\"`, `"`, `\`, "\n", `}`, `{`, `a,b="c"`,
-		"tab\there", "nul\x00byte", "\xff\xfe", "ünïcode", ` leading and trailing `, `#comment`, `a=b`, `\\"\\n`, strings.Repeat(`"\`, 20)}
-	randStr := func() string {
-		switch r.Intn(4) {
-		case 0:
-			return vPick(r, hostile)
-		case 1:
-			b := make([]byte, r.Intn(12))
-			for i := range b {
-				b[i] = "abc/_-.~\"\\\n{}=, #"[r.Intn(17)]
-			}
-			return string(b)
-		case 2:
-			b := make([]byte, r.Intn(8))
-			for i := range b {
-				b[i] = byte(r.U64())
-			}
-			return string(b)
-		default:
-			return fmt.Sprintf("cam%d/stream", r.Intn(50))
-		}
+	var covered []string
+	kindByType := map[string]*vC36Kind{}
+	for i := range vC36Kinds {
+		covered = append(covered, vC36Kinds[i].names()...)
+		kindByType[vC36Kinds[i].typ] = &vC36Kinds[i]
 	}
-	counter := func() uint64 {
-		switch r.Intn(4) {
-		case 0:
-			return 0
-		case 1:
-			return uint64(1)<<63 - 1 - uint64(r.Intn(3))
-		case 2:
-			return r.U64() >> 1
-		default:
-			return uint64(r.Intn(100000))
-		}
-	}
-	readerTypes := []defs.APIPathReaderType{defs.APIPathReaderTypeHLSSession, defs.APIPathReaderTypeRTMPConn, defs.APIPathReaderTypeRTMPSConn}
+	coveredCoq := cqListOf(covered, vC36B)
+	dist := map[string]int{}
 
 	for i := 0; i < n; i++ {
-		var exp []vC36Exp
-		hostileCount := 0
-		pl := &defs.APIPathList{}
-		np := r.Intn(4)
-		for k := 0; k < np; k++ {
-			p := defs.APIPath{Name: randStr(), Ready: r.Bool(), InboundBytes: counter(), OutboundBytes: counter(),
-				InboundFramesInError: counter(), BytesReceived: counter(), BytesSent: counter()}
-			for q := r.Intn(4); q > 0; q-- {
-				p.Readers = append(p.Readers, defs.APIPathReader{Type: vPick(r, readerTypes), ID: "x"})
+		g := &vC36Gen{r: r}
+		// profile: which servers exist. 0: everything, 1: random subset, 2: paths only, 3: one server only
+		profile := r.Intn(4)
+		only := 2 + r.Intn(len(vC36Kinds)-2)
+		has := func(idx int) bool {
+			switch profile {
+			case 0:
+				return true
+			case 1:
+				return r.Chance(1, 2)
+			case 2:
+				return false
+			default:
+				return idx == only
 			}
-			if strings.ContainsAny(p.Name, "\"\\\n") {
-				hostileCount++
+		}
+		fail := func() bool { return r.Chance(1, 12) }
+
+		listings := map[string]vC36Listing{}
+		m := &Metrics{}
+
+		// paths and forward destinations
+		pm := &vC36PM{list: &defs.APIPathList{}, listErr: fail(), forwards: map[string]*defs.APIForwardDestList{}}
+		np := g.count(3)
+		if profile == 3 {
+			np = r.Intn(2)
+		}
+		paths, pathEnts := vC36Make[defs.APIPath](g, np)
+		pm.list.Items = paths
+		var fwdEnts []vC36Ent
+		fwdByName := map[string][]vC36Ent{}
+		var fwdOrder []string
+		for _, p := range paths {
+			if _, seen := pm.forwards[p.Name]; seen {
+				continue
 			}
-			pl.Items = append(pl.Items, p)
-			state := "notReady"
-			if p.Ready {
-				state = "ready"
+			fwdOrder = append(fwdOrder, p.Name)
+			if r.Chance(1, 8) {
+				pm.forwards[p.Name] = nil // error
+				continue
 			}
-			ta := vC36Labels(map[string]string{"name": p.Name, "state": state})
-			exp = append(exp, vC36Exp{"paths", ta, 1}, vC36Exp{"paths_inbound_bytes", ta, int64(p.InboundBytes)},
-				vC36Exp{"paths_outbound_bytes", ta, int64(p.OutboundBytes)},
-				vC36Exp{"paths_inbound_frames_in_error", ta, int64(p.InboundFramesInError)},
-				vC36Exp{"paths_bytes_received", ta, int64(p.BytesReceived)}, vC36Exp{"paths_bytes_sent", ta, int64(p.BytesSent)})
-			if len(p.Readers) == 0 {
-				exp = append(exp, vC36Exp{"paths_readers", vC36Labels(map[string]string{"name": p.Name, "state": state, "readerType": ""}), 0})
+			nf := 0
+			if r.Chance(1, 2) {
+				nf = 1 + r.Intn(2)
+			}
+			fw, fe := vC36Make[defs.APIForwardDest](g, nf)
+			pm.forwards[p.Name] = &defs.APIForwardDestList{Items: fw}
+			fwdByName[p.Name] = fe
+		}
+		for _, p := range paths { // in listing order, duplicates of a name list the same destinations again
+			for _, e := range fwdByName[p.Name] {
+				e.Owner = p.Name
+				fwdEnts = append(fwdEnts, e)
+			}
+		}
+		m.pathManager = pm
+		listings["paths"] = vC36Listing{present: true, failed: pm.listErr, ents: pathEnts}
+		listings["forward_dests"] = vC36Listing{present: !pm.listErr, ents: fwdEnts}
+
+		if has(2) {
+			s := &vC36HLS{sErr: fail(), mErr: fail(), sessions: &defs.APIHLSSessionList{}, muxers: &defs.APIHLSMuxerList{}}
+			var se, me []vC36Ent
+			s.sessions.Items, se = vC36Make[defs.APIHLSSession](g, g.count(3))
+			s.muxers.Items, me = vC36Make[defs.APIHLSMuxer](g, g.count(3))
+			m.hlsServer = s
+			listings["hls_sessions"] = vC36Listing{true, s.sErr, se}
+			listings["hls_muxers"] = vC36Listing{true, s.mErr, me}
+		}
+		for _, pfx := range []string{"rtsp", "rtsps"} {
+			if !has(map[string]int{"rtsp": 4, "rtsps": 6}[pfx]) {
+				continue
+			}
+			s := &vC36RTSP{cErr: fail(), sErr: fail(), conns: &defs.APIRTSPConnsList{}, sessions: &defs.APIRTSPSessionList{}}
+			var ce, se []vC36Ent
+			s.conns.Items, ce = vC36Make[defs.APIRTSPConn](g, g.count(3))
+			s.sessions.Items, se = vC36Make[defs.APIRTSPSession](g, g.count(2))
+			if pfx == "rtsp" {
+				m.rtspServer = s
 			} else {
-				byType := map[string]int{}
-				for _, rd := range p.Readers {
-					byType[string(rd.Type)]++
-				}
-				for ty, c := range byType {
-					exp = append(exp, vC36Exp{"paths_readers", vC36Labels(map[string]string{"name": p.Name, "state": state, "readerType": ty}), int64(c)})
-				}
+				m.rtspsServer = s
 			}
+			listings[pfx+"_conns"] = vC36Listing{true, s.cErr, ce}
+			listings[pfx+"_sessions"] = vC36Listing{true, s.sErr, se}
 		}
-		wl := &defs.APIWebRTCSessionList{}
-		nw := r.Intn(3)
-		for k := 0; k < nw; k++ {
-			var id uuid.UUID
-			for b := range id {
-				id[b] = byte(r.U64())
+		for _, pfx := range []string{"rtmp", "rtmps"} {
+			if !has(map[string]int{"rtmp": 8, "rtmps": 9}[pfx]) {
+				continue
 			}
-			s := defs.APIWebRTCSession{ID: id, RemoteAddr: randStr(), State: defs.APIWebRTCSessionState(vPick(r, []string{"read", "publish"})),
-				Path: randStr(), InboundBytes: counter(), OutboundBytes: counter(), InboundRTPPackets: counter(),
-				OutboundFramesDiscarded: counter(), InboundRTPPacketsJitter: float64(r.Intn(1000)) / 7}
-			if strings.ContainsAny(s.Path+s.RemoteAddr, "\"\\\n") {
-				hostileCount++
+			s := &vC36RTMP{err: fail(), conns: &defs.APIRTMPConnList{}}
+			var ce []vC36Ent
+			s.conns.Items, ce = vC36Make[defs.APIRTMPConn](g, g.count(3))
+			if pfx == "rtmp" {
+				m.rtmpServer = s
+			} else {
+				m.rtmpsServer = s
 			}
-			wl.Items = append(wl.Items, s)
-			ta := vC36Labels(map[string]string{"id": id.String(), "state": string(s.State), "path": s.Path, "remoteAddr": s.RemoteAddr})
-			exp = append(exp, vC36Exp{"webrtc_sessions", ta, 1}, vC36Exp{"webrtc_sessions_inbound_bytes", ta, int64(s.InboundBytes)},
-				vC36Exp{"webrtc_sessions_outbound_bytes", ta, int64(s.OutboundBytes)},
-				vC36Exp{"webrtc_sessions_inbound_rtp_packets", ta, int64(s.InboundRTPPackets)},
-				vC36Exp{"webrtc_sessions_outbound_frames_discarded", ta, int64(s.OutboundFramesDiscarded)})
+			listings[pfx+"_conns"] = vC36Listing{true, s.err, ce}
 		}
-		var covered []string
-		if np > 0 {
-			covered = append(covered, "paths", "paths_inbound_bytes", "paths_outbound_bytes", "paths_inbound_frames_in_error",
-				"paths_bytes_received", "paths_bytes_sent", "paths_readers")
+		if has(10) {
+			s := &vC36SRT{err: fail(), conns: &defs.APISRTConnList{}}
+			var ce []vC36Ent
+			s.conns.Items, ce = vC36Make[defs.APISRTConn](g, g.count(2))
+			m.srtServer = s
+			listings["srt_conns"] = vC36Listing{true, s.err, ce}
 		}
-		if nw > 0 {
-			covered = append(covered, "webrtc_sessions", "webrtc_sessions_inbound_bytes", "webrtc_sessions_outbound_bytes",
-				"webrtc_sessions_inbound_rtp_packets", "webrtc_sessions_outbound_frames_discarded")
+		if has(11) {
+			s := &vC36WR{err: fail(), list: &defs.APIWebRTCSessionList{}}
+			var ce []vC36Ent
+			s.list.Items, ce = vC36Make[defs.APIWebRTCSession](g, g.count(3))
+			m.webRTCServer = s
+			listings["webrtc_sessions"] = vC36Listing{true, s.err, ce}
+		}
+		if has(12) {
+			s := &vC36MoQ{err: fail(), list: &defs.APIMoQSessionList{}}
+			var ce []vC36Ent
+			s.list.Items, ce = vC36Make[defs.APIMoQSession](g, g.count(3))
+			m.moqServer = s
+			listings["moq_sessions"] = vC36Listing{true, s.err, ce}
 		}
 
-		m := &Metrics{}
-		m.pathManager = &vC36PM{pl}
-		m.webRTCServer = &vC36WR{wl}
+		// ---- query ----
+		q := map[string]string{}
+		var qOrder []string
+		setQ := func(k, v string) {
+			if _, ok := q[k]; !ok {
+				qOrder = append(qOrder, k)
+			}
+			q[k] = v
+		}
+		// a filter value for the kind: the key of an existing entity (mostly), else something else
+		filterFor := func(k *vC36Kind, f [2]string) string {
+			l := listings[k.typ]
+			if len(l.ents) > 0 && !l.failed && r.Chance(3, 4) {
+				e := l.ents[r.Intn(len(l.ents))]
+				return k.source(&e, f[1])
+			}
+			if r.Chance(1, 2) {
+				return g.str()
+			}
+			return "nonexistent"
+		}
+		qclass := "no-query"
+		switch r.Intn(10) {
+		case 0, 1, 2:
+		case 3, 4: // type only
+			qclass = "type"
+			switch r.Intn(8) {
+			case 0:
+				setQ("type", vPick(r, []string{"foo", "path", "Paths", "paths ", ""}))
+			default:
+				setQ("type", vC36Kinds[r.Intn(len(vC36Kinds))].typ)
+			}
+		case 5, 6: // one filter
+			qclass = "filter"
+			k := &vC36Kinds[r.Intn(len(vC36Kinds))]
+			f := k.filters[r.Intn(len(k.filters))]
+			setQ(f[0], filterFor(k, f))
+		case 7: // type + filter (same or another kind)
+			qclass = "type+filter"
+			k := &vC36Kinds[r.Intn(len(vC36Kinds))]
+			f := k.filters[r.Intn(len(k.filters))]
+			setQ(f[0], filterFor(k, f))
+			if r.Chance(2, 3) {
+				setQ("type", k.typ)
+			} else {
+				setQ("type", vC36Kinds[r.Intn(len(vC36Kinds))].typ)
+			}
+		case 8: // two or three filters
+			qclass = "filters"
+			for c := 2 + r.Intn(2); c > 0; c-- {
+				k := &vC36Kinds[r.Intn(len(vC36Kinds))]
+				if r.Chance(1, 3) {
+					k = &vC36Kinds[r.Intn(2)] // paths / forward destinations: path + forward_dest
+				}
+				f := k.filters[r.Intn(len(k.filters))]
+				setQ(f[0], filterFor(k, f))
+			}
+		default: // forward destinations
+			qclass = "forward"
+			k := &vC36Kinds[1]
+			if r.Chance(2, 3) {
+				setQ("type", "forward_dests")
+			}
+			for _, f := range k.filters {
+				if r.Chance(1, 2) {
+					setQ(f[0], filterFor(k, f))
+				}
+			}
+		}
+		if r.Chance(1, 10) {
+			setQ("unrelated", "x")
+		}
+		uv := url.Values{}
+		for _, k := range qOrder {
+			uv.Set(k, q[k])
+		}
+		target := "/metrics"
+		if len(qOrder) > 0 {
+			target += "?" + uv.Encode()
+		}
+
+		// ---- the real handler ----
 		rec := httptest.NewRecorder()
 		ctx, _ := gin.CreateTestContext(rec)
-		ctx.Request = httptest.NewRequest(http.MethodGet, "/metrics", nil)
+		ctx.Request = httptest.NewRequest(http.MethodGet, target, nil)
 		m.onMetrics(ctx)
 		body := rec.Body.String()
 
-		expC := cqListOf(exp, func(e vC36Exp) string {
-			ls := cqListOf(e.labels, func(l [2]string) string { return cqPair(cqBytes(l[0]), cqBytes(l[1])) })
-			return "(" + cqBytes(e.name) + ", " + ls + ", " + cqZ(e.value) + ")"
-		})
-		class := "plain"
-		switch {
-		case np+nw == 0:
-			class = "empty"
-		case hostileCount > 0:
-			class = "hostile-strings"
+		// ---- what the property calls for ----
+		anyFilter := false
+		for i := range vC36Kinds {
+			for _, f := range vC36Kinds[i].filters {
+				if q[f[0]] != "" {
+					anyFilter = true
+				}
+			}
 		}
-		out.Case(cqApp("Scrape", cqBytes(body), cqListOf(covered, func(s string) string { return cqBytes(s) }), expC),
-			map[string]any{"paths": pl.Items, "webrtc_sessions": wl.Items, "body": body}, class, hostileCount > 0)
+		var exp []vC36X
+		nEnt, nShown, nZero := 0, 0, 0
+		for ki := range vC36Kinds {
+			k := &vC36Kinds[ki]
+			l, ok := listings[k.typ]
+			if !ok || !l.present {
+				continue
+			}
+			if !l.failed {
+				nEnt += len(l.ents)
+			}
+			own := false
+			for _, f := range k.filters {
+				if q[f[0]] != "" {
+					own = true
+				}
+			}
+			selected := (q["type"] == "" || q["type"] == k.typ) && (!anyFilter || own)
+			if !selected {
+				continue
+			}
+			if !l.failed && len(l.ents) > 0 {
+				for ei := range l.ents {
+					if k.passes(&l.ents[ei], q) {
+						exp = append(exp, k.expect(&l.ents[ei])...)
+						nShown++
+					}
+				}
+			} else if !own && (!k.zeroType || q["type"] == k.typ) {
+				x := vC36X{NoTags: true}
+				for _, nm := range k.names() {
+					x.Vals = append(x.Vals, vC36Val{Name: nm, I: 0})
+				}
+				exp = append(exp, x)
+				nZero++
+			}
+		}
+
+		// ---- the case ----
+		pathsCoq := cqOpt(!pm.listErr, vC36EntsCoq(pathEnts))
+		fwdCoq := cqListOf(fwdOrder, func(name string) string {
+			l := pm.forwards[name]
+			return cqPair(vC36B(name), cqOpt(l != nil, vC36EntsCoq(fwdByName[name])))
+		})
+		var srv []string
+		for ki := 2; ki < len(vC36Kinds); ki++ {
+			if l, ok := listings[vC36Kinds[ki].typ]; ok {
+				srv = append(srv, cqPair(vC36Kinds[ki].coq, l.coq()))
+			}
+		}
+		qCoq := cqListOf(qOrder, func(k string) string { return cqPair(vC36B(k), vC36B(q[k])) })
+
+		class := qclass
+		switch {
+		case nEnt == 0:
+			class += "/no-entities"
+		case nShown == 0:
+			class += "/none-shown"
+		case g.hostile > 0:
+			class += "/hostile-strings"
+		default:
+			class += "/plain"
+		}
+		dist[class]++
+		descL := map[string]any{}
+		for typ, l := range listings {
+			switch {
+			case l.failed:
+				descL[typ] = "list error"
+			default:
+				descL[typ] = l.ents
+			}
+		}
+		out.Case(cqApp("Scrape", pathsCoq, fwdCoq, cqList(srv), qCoq, vC36B(body), coveredCoq, cqListOf(exp, vC36XCoq)),
+			map[string]any{"target": target, "query": q, "servers": descL, "body": body,
+				"expected_entities": nShown, "zero_kinds": nZero},
+			class, g.hostile > 0 && nShown > 0)
 	}
+	t.Logf("C36 distribution: %v", dist)
 }
